@@ -33,7 +33,8 @@ ASSUMPTIONS = [
 ]
 
 T2_TIMEOUT = 240
-T2DIR = os.path.join(vlib.ROOT, "work", "C11")   # outside coq/theories: never part of the global make; git-ignored
+# outside coq/theories: never part of the global make; git-ignored; a private repo copy gets its own directory
+T2DIR = os.path.join(vlib.ROOT, "work", "C11" + ("" if vlib.REPO == "/repo" else "_" + vlib.REPO.strip("/").replace("/", "_")))
 
 
 def _lib():
@@ -108,8 +109,9 @@ def generated_obligations(ctx, proof, broken):
                    ["theories/Puzzle/SatAbs.vo", "theories/Puzzle/Rules_%s.vo" % name])
         if not (os.path.exists(vo) and os.path.getmtime(vo) > max(os.path.getmtime(path), depm)):
             todo.append(fn)
+    running = tuple("C11_%s_" % p.NAME for p in plugs)
     for f in os.listdir(T2DIR):
-        if f.startswith("C11_") and f.split(".")[0] + ".v" not in wanted:
+        if f.startswith(running) and f.split(".")[0] + ".v" not in wanted:
             os.remove(os.path.join(T2DIR, f))
     for fn in sorted(wanted):
         with open(os.path.join(T2DIR, fn)) as fh:
@@ -118,7 +120,7 @@ def generated_obligations(ctx, proof, broken):
     failed = {}
     if todo:
         cmd = ("printf '%s\\n' " + " ".join(todo) +
-               " | xargs -P16 -I{} sh -c 'timeout %d coqc -q -Q theories Cspuz -Q ../work/C11 C11Gen ../work/C11/{} > ../work/C11/{}.log 2>&1 || echo FAILED {}'" % T2_TIMEOUT)
+               " | xargs -P16 -I{} sh -c 'timeout %d coqc -q -Q theories Cspuz -Q %s C11Gen %s/{} > %s/{}.log 2>&1 || echo FAILED {}'" % (T2_TIMEOUT, T2DIR, T2DIR, T2DIR))
         rc, out = vlib.sh(cmd, cwd=vlib.COQ, timeout=T2_TIMEOUT * (1 + len(todo) // 16) + 60)
         for line in out.split("\n"):
             if line.startswith("FAILED"):
@@ -172,7 +174,7 @@ class Runner:
 
 def _work(args):
     global _RUNNER
-    path, items = args
+    path, items, maxans = args
     L = _lib()
     if _RUNNER is None:
         _RUNNER = Runner(path)
@@ -183,7 +185,7 @@ def _work(args):
         p = _PLUG[name]
         t0 = time.time()
         try:
-            r = L.search_case(p, pb, _RUNNER)
+            r = L.search_case(p, pb, _RUNNER, maxans)
         except Exception as ex:  # noqa
             import traceback
             r = {"status": "harness", "why": traceback.format_exc()[-800:]}
@@ -219,7 +221,7 @@ def search(ctx):
             items.append((p.NAME, pb, i % 7 == 0))
     random.Random(ctx.seed).shuffle(items)
     nchunk = max(1, min(len(items), 16 * 8))
-    chunks = [(runner, items[i::nchunk]) for i in range(nchunk)]
+    chunks = [(runner, items[i::nchunk], 300000 if ctx.thorough else 70000) for i in range(nchunk)]
     byname = {p.NAME: p for p in plugs}
     stats = {}
     mpctx = multiprocessing.get_context("fork")
